@@ -193,6 +193,13 @@ impl Property for GramProp {
         };
         vd
     }
+    fn sweeps(&self, _tier: Tier, _seed: u64) -> Vec<Box<dyn super::Sweep>> {
+        if self.id == "C12" {
+            vec![Box::new(RealWorld)]
+        } else {
+            vec![]
+        }
+    }
     fn assumptions(&self) -> Vec<String> {
         vec!["the construct grammar (harness/src/gen/gram.rs, DESIGN 4.6) only derives programs that SAS and the lexer's documented heuristics accept; its preconditions are listed in DESIGN 4.6".into()]
     }
@@ -372,4 +379,32 @@ fn check_c14_open_parens(m: &str, open: usize) -> Verdict {
         vd.violations.push(Violation::new("C14", "no-recovery-token", "no-recovery-token:RPAREN:count", format!("{open} parentheses are open at end of input of {m:?} but {virt} zero-width RPAREN tokens were inserted")));
     }
     vd
+}
+
+/// C12 on the statement-complete real-world programs of the corpus (whole files, and each file
+/// followed by each other file): valid SAS written by people, constructs the grammar does not model
+pub struct RealWorld;
+/// programs that use macro statements inside %sysfunc arguments: the lexer documents this as
+/// unsupported (OpenCodeRecursionError), so they are not "documented constructs"
+const NOT_IN_SCOPE: &[&str] = &["digit_classifier.sas", "digit_classifier_advanced.sas", "digit_recognizer.sas"];
+pub fn real_programs() -> Vec<(String, String)> {
+    crate::gen::corpus().programs.iter().filter(|(n, t)| !NOT_IN_SCOPE.contains(&n.as_str()) && t.trim_end().ends_with(';')).cloned().collect()
+}
+impl super::Sweep for RealWorld {
+    fn name(&self) -> String {
+        format!("the {} statement-complete real-world programs of corpus/ (whole files, and every ordered pair of them concatenated)", real_programs().len())
+    }
+    fn chunks(&self) -> usize {
+        real_programs().len()
+    }
+    fn run_chunk(&self, chunk: usize, f: &mut dyn FnMut(Case)) {
+        let ps = real_programs();
+        let (_, a) = &ps[chunk];
+        f(Case::text("real-world-file", a.clone()));
+        for (j, (_, b)) in ps.iter().enumerate() {
+            if j != chunk {
+                f(Case::text("real-world-pair", format!("{a}\n{b}")));
+            }
+        }
+    }
 }
